@@ -12,8 +12,8 @@ META = {
     "shards": {"quick": 16, "thorough": 8},
     "exhaustive_within_bound": True,
     "bounds": {
-        "quick": "every lint-legal acyclic circuit over N=4 names, created in topological and in reverse topological order: all presence/type/output/edge combinations; inputs=False with all 14 types (incl. blackbox pins), inputs=True with blackbox-free types; repeated application (second call)",
-        "thorough": "N=5 in topological and reverse topological creation order; N=4 in an interleaved order (n1, n3, n0, n2)",
+        "quick": "every lint-legal acyclic circuit over N=4 names (input, and, sink, x: names that are also type strings or plausible temporary names), created in topological and in reverse topological order: all presence/type/output/edge combinations; inputs=False with all 14 types (incl. blackbox pins), inputs=True with blackbox-free types; repeated application (second call)",
+        "thorough": "N=5 in topological creation order; N=4 in reverse topological and in an interleaved creation order",
     },
     "outside": ["more than N nodes", "cyclic circuits", "creation orders other than: topological, reverse topological (thorough: one interleaved order on 4 names)"],
     "assumptions": ["SymDiGraph stand-in for networkx.DiGraph (validated by a conformance replay against real networkx on every path)", "specs.py definitions of liveness/legality", "z3 sound"],
@@ -21,6 +21,8 @@ META = {
 }
 
 SPLIT_BITS = {"quick": 10, "thorough": 12}
+# node names that are also type strings / names an implementation might pick for a temporary node (a name is never a type)
+NAMES = ["input", "and", "sink", "x", "buf"]
 
 
 def all_cases(ctx):
@@ -31,10 +33,10 @@ def all_cases(ctx):
     cs = [(("remove_unloaded", N, inputs, k), (N, inputs, sb, k)) for k in ks for inputs in (False, True)]
     # the same universe with the edges running AGAINST the iteration (= creation) order of the graph: drivers created after their
     # loads, as in parsed or incrementally wired netlists (thorough: also an interleaved order on N=4)
-    cs += [(("remove_unloaded", N, inputs, k, "rev"), ((N, "rev"), inputs, sb, k)) for k in ks for inputs in (False, True)]
+    sb4 = SPLIT_BITS["quick"]
+    ks4 = [int(format(k, f"0{sb4}b")[::-1], 2) for k in range(1 << sb4)]
+    cs += [(("remove_unloaded", 4, inputs, k, "rev"), ((4, "rev"), inputs, sb4, k)) for k in ks4 for inputs in (False, True)]
     if not ctx.quick:
-        sb4 = SPLIT_BITS["quick"]
-        ks4 = [int(format(k, f"0{sb4}b")[::-1], 2) for k in range(1 << sb4)]
         cs += [(("remove_unloaded", 4, inputs, k, "mixed"), ((4, "mixed"), inputs, sb4, k)) for k in ks4 for inputs in (False, True)]
     # a circuit with a registered blackbox instance `bb` AND an ordinary node that is also called `bb` (legal: only pin names are checked)
     cs += [(("remove_unloaded", "bbname", False, k), ("bbname", False, 4, k)) for k in range(16)]
@@ -52,10 +54,10 @@ def run(ctx):
             U = ["bb.o", "a", "bb", "n", "bb.i"]
             registry = {"bb": (["i"], ["o"])}
         elif isinstance(N, tuple):
-            U = [f"n{i}" for i in range(N[0])]
+            U = NAMES[:N[0]]
             D = list(reversed(U)) if N[1] == "rev" else [U[i] for i in ([1, 3, 0, 2, 4][:len(U)] if len(U) > 3 else [1, 0, 2][:len(U)])]
         else:
-            U = [f"n{i}" for i in range(N)]
+            U = NAMES[:N]
         vars_ = sg.make_vars(U, self_loops=False)
         P, T, O, E = vars_
         OM = {n: z3.Bool(f"OM!{n}") for n in U}  # node without an `output` attribute (is_output() treats it as not an output)
